@@ -123,9 +123,25 @@ type workerOut struct {
 	Pairs      int               `json:"pairs"`
 }
 
+// builtBins: the simulator binaries this invocation built. They carry the process id in their name so that two checks running
+// at the same time (a background sweep and a foreground check, say) never execute each other's build — which, with VERIF_REPO
+// pointing at different trees, would silently judge the wrong code.
+var builtBins []string
+
+func cleanupBins() {
+	for _, b := range builtBins {
+		os.Remove(b)
+	}
+}
+
+func exit(code int) {
+	cleanupBins()
+	os.Exit(code)
+}
+
 func die(code int, f string, a ...any) {
 	fmt.Fprintf(os.Stderr, "vcheck: "+f+"\n", a...)
-	os.Exit(code)
+	exit(code)
 }
 
 func goEnv() []string {
@@ -134,10 +150,10 @@ func goEnv() []string {
 }
 
 func build(race bool) string {
-	out := filepath.Join(verifDir, ".build", "sim.test")
+	out := filepath.Join(verifDir, ".build", fmt.Sprintf("sim.%d.test", os.Getpid()))
 	args := []string{"test", "-c", "-o", out}
 	if race {
-		out = filepath.Join(verifDir, ".build", "sim.race.test")
+		out = filepath.Join(verifDir, ".build", fmt.Sprintf("sim.race.%d.test", os.Getpid()))
 		args = []string{"test", "-race", "-c", "-o", out}
 	}
 	if mf := os.Getenv("VERIF_MODFILE"); mf != "" {
@@ -152,10 +168,20 @@ func build(race bool) string {
 	if err := cmd.Run(); err != nil {
 		die(2, "build of the simulator against /repo failed (exit 2 = build trouble, not a violation):\n%s", buf.String())
 	}
+	builtBins = append(builtBins, out)
 	return out
 }
 
 func main() {
+	defer cleanupBins()
+	// binaries left behind by invocations that were killed
+	if old, _ := filepath.Glob(filepath.Join(verifDir, ".build", "sim.*.test")); len(old) > 0 {
+		for _, f := range old {
+			if st, err := os.Stat(f); err == nil && time.Since(st.ModTime()) > 12*time.Hour {
+				os.Remove(f)
+			}
+		}
+	}
 	if len(os.Args) >= 3 && os.Args[1] == "--replay" {
 		replay(os.Args[2])
 		return
@@ -391,7 +417,7 @@ func main() {
 				obs += "\n" + abbreviate(string(raceOut), 2500)
 			}
 			fmt.Printf("  rule: C15.4 ids (real randomness source, 16 goroutines)\n  key: C15:ids:real-source\n  expected: pairwise distinct legal IDs, no panic, no data race\n  observed: %s\nVIOLATION property=C15 replay=%s\n", obs, path)
-			os.Exit(1)
+			exit(1)
 		}
 	}
 	wall := time.Since(start).Seconds()
@@ -497,7 +523,7 @@ func main() {
 			fmt.Printf("  rule: %s\n  key: %s\n  expected: %s\n  observed: %s\n  steps: %d → %d after shrinking\n", v.Rule, v.Key, v.Expected, v.Observed, v.StepsBefore, v.StepsAfter)
 			fmt.Printf("VIOLATION property=%s replay=%s\n", prop, v.Replay)
 		}
-		os.Exit(1)
+		exit(1)
 	}
 	if len(missing) > 0 {
 		die(2, "thorough tier: required probes stuck at zero: %v (workload or fault mix must change; not a violation)", missing)
@@ -555,7 +581,7 @@ func replay(path string) {
 			return
 		}
 		fmt.Printf("VIOLATION property=C15 replay=%s\n", path)
-		os.Exit(1)
+		exit(1)
 	}
 	if strings.HasSuffix(path, ".prefix.json") {
 		bin := build(false)
@@ -564,10 +590,10 @@ func replay(path string) {
 		prop := strings.SplitN(filepath.Base(path), "-", 2)[0]
 		if bytes.Contains(out, []byte("REPLAY-REPRODUCED")) {
 			fmt.Printf("VIOLATION property=%s replay=%s\n", prop, path)
-			os.Exit(1)
+			exit(1)
 		}
 		if bytes.Contains(out, []byte("REPLAY-ERROR")) {
-			os.Exit(2)
+			exit(2)
 		}
 		fmt.Println("vcheck: replay did not reproduce the recorded violation on this tree")
 		return
@@ -581,10 +607,10 @@ func replay(path string) {
 	prop := strings.SplitN(filepath.Base(path), "-", 2)[0]
 	if bytes.Contains(out, []byte("REPLAY-REPRODUCED")) || (raceMode && bytes.Contains(out, []byte("WARNING: DATA RACE"))) {
 		fmt.Printf("VIOLATION property=%s replay=%s\n", prop, path)
-		os.Exit(1)
+		exit(1)
 	}
 	if bytes.Contains(out, []byte("REPLAY-ERROR")) || bytes.Contains(out, []byte("REPLAY-MISMATCH")) {
-		os.Exit(2)
+		exit(2)
 	}
 	fmt.Println("vcheck: replay did not reproduce the recorded violation on this tree")
 }
@@ -637,7 +663,7 @@ func abbreviate(s string, n int) string {
 // processes under GOMAXPROCS 1, 4 and 16 (two runs each). Exit 2 on any difference.
 func determinism(args []string) {
 	if determinismRun(args, true) > 0 {
-		os.Exit(2)
+		exit(2)
 	}
 }
 
